@@ -10,6 +10,8 @@ SPEC = dict(
     extra_driver_files=['curves'],
     drivers=[dict(name='ctrl', drv_mod='Drv.CtrlC07', drv_file='Drv/CtrlC07.v', shard=100,
                   args={'quick': ['n=300', 'modes=recover,stallmax,random,ext,fault'], 'thorough': ['n=2000', 'modes=recover,stallmax,random,ext,fault,stall']}, timeout={'quick': 900, 'thorough': 6000}),
+             dict(name='ctrllag', drv_mod='Drv.CtrlLagC07', drv_file='Drv/CtrlLagC07.v', shard=100,
+                  args={'quick': ['n=160', 'modes=random,const,recover,stallmax,fault'], 'thorough': ['n=1500', 'modes=random,const,recover,stallmax,fault,stall']}, timeout={'quick': 900, 'thorough': 6000}),
              dict(name='curvesmono', drv_mod='Drv.CurvesMono', drv_file='Drv/CurvesMono.v', shard=50,
                   args={'quick': ['n=700'], 'thorough': ['n=12000']}, timeout={'quick': 600, 'thorough': 3000}),
              dict(name='curvesctrl', drv_mod='Drv.CurvesCtrl', drv_file='Drv/CurvesCtrl.v', shard=8,
